@@ -93,7 +93,7 @@ _ALL = {
              'cull() and the bulk removals return everything they removed (E4); get/incr refresh recency in the same '
              'block (E5); Deque/Index use policy none (E6); the limit is divided among shards (S5).',
              'Which concrete items survive a given history needs execution and is not decided.'),
-    'C10': P(['Q1', 'Q2', ('B2', r'Cache\.(pull|peek)/'), ('L2', r'Cache\.(push|pull|peek)/'), ('F4', r'Cache\.(pull|peek)/'),
+    'C10': P(['Q1', 'Q2', 'Q3', ('B2', r'Cache\.(pull|peek)/'), ('L2', r'Cache\.(push|pull|peek)/'), ('F4', r'Cache\.(pull|peek)/'),
               ('X1', r'Cache\.(pull|peek)/'), ('S6', r'persistent\.(Deque|Index)\.')],
              'sibling agreement of push/pull/peek (constant-folded key ranges, order maps) + lock discipline',
              'Decides that push, pull and peek build the same open key range, pin raw, map sides to orders '
@@ -157,7 +157,7 @@ _ALL = {
              'a fixpoint in one pass (H3 - violated, known finding); all comparisons run in one transaction (H4); '
              'FanoutCache.check covers every shard (S4, S6).',
              'Convergence for arbitrary damage combinations beyond these structural conditions is not decided.'),
-    'C18': P(['P1', 'P2', 'P3', 'P4', 'B5', 'B6', 'L6'],
+    'C18': P(['P1', 'P2', 'P3', 'P4', 'P5', 'B5', 'B6', 'L6'],
              'constant folding of the on-disk format against a pinned reference + state-tuple/constructor agreement',
              'Decides that pickled state matches the constructor for Cache/FanoutCache/Deque/Index (P1); settings are '
              'layered defaults < stored < arguments and counters inserted with OR IGNORE (P2); every on-disk format fact '
@@ -188,7 +188,8 @@ _EXTRA = {
     'C04': ' Also: liveness is decided with a clock read after the lock was obtained (X4 - violated in touch/add/incr, '
            'known finding C04-F3); the lazy removal cannot delete the row an operation is about to rewrite (L9).',
     'C05': ' Also: row identity (L9) and re-entrancy of the shared Disk object (K7).',
-    'C10': ' Also: pull/peek results are (key, value) of the selected row in the requested shape (B2).',
+    'C10': ' Also: pull/peek results are (key, value) of the selected row in the requested shape (B2); the counter of '
+           'a prefixed key is never cut out with character-set stripping (Q3).',
     'C11': ' Also: each method delegates to the right primitive with the right side/sentinel/retry constants and '
            'rotate re-inserts exactly what it popped (I1, L3).',
     'C12': ' Also: the delegation table and the sentinel-based equality hold (I1, L3).',
@@ -196,7 +197,8 @@ _EXTRA = {
            'the vanished-file path that memoize_stampede unpacks (B2).',
     'C17': ' Also: both directory scans run on every path and compare os.path.join-ed paths (H4).',
     'C18': ' Also: setting prefixes are stripped exactly and reset() writes through to the Settings table (B5, B6); '
-           'connections are opened in autocommit mode with the object\'s timeout (L6).',
+           'connections are opened in autocommit mode with the object\'s timeout (L6); statements name only '
+           'tables and indexes that __init__ creates unconditionally and nothing drops (P5).',
     'C19': ' Also: every method performs exactly one downstream operation on every return path (D4).',
 }
 PROPS = {}
